@@ -38,6 +38,12 @@ func RunDebug(cmd string, args ...string) error {
 }
 
 func OutputDebug(cmd string, args ...string) (string, error) {
+	return OutputDebugIn("", cmd, args...)
+}
+
+// OutputDebugIn is like OutputDebug, but runs the command in the given
+// directory (the current directory if dir is empty).
+func OutputDebugIn(dir string, cmd string, args ...string) (string, error) {
 	env, err := EnvWithCurrentGOOS()
 	if err != nil {
 		return "", err
@@ -47,6 +53,7 @@ func OutputDebug(cmd string, args ...string) (string, error) {
 	debug.Println("running", cmd, strings.Join(args, " "))
 	c := exec.Command(cmd, args...)
 	c.Env = env
+	c.Dir = dir
 	c.Stderr = errbuf
 	c.Stdout = buf
 	if err := c.Run(); err != nil {
